@@ -490,6 +490,9 @@ class Interp:
                 c = self.reg.method_contract(self, cont, '__contains__')
                 if c is not None:
                     return self.truth(self.call_contract(c, [cont, xv], {}))
+                view = self.sequence_view_of(ref)
+                if view is not None:
+                    return z3.Contains(view, z3.Unit(xv))
                 return self.unknown_contains(cont, xv)
             if tag == 's' or (tag is None and st.branch(Val.is_s(cont))):
                 if not st.branch(Val.is_s(xv)):
@@ -499,6 +502,23 @@ class Interp:
         return z3.If(Val.is_t(cont), in_tuple,
                      z3.If(Val.is_s(cont), in_str,
                            z3.If(cls == V.DICT_CID, in_dict, in_seq)))
+
+    def sequence_view_of(self, ref):
+        """SEQUENCE_VIEW = {Class: 'attr'} in a sidecar: the class implements only the legacy sequence protocol
+        (__getitem__/__len__ delegating to the list in `attr`), so iterating or testing membership on an instance is
+        iterating / testing that list (elements compared by Val equality: identity for objects).  Stated assumption
+        A-seqview; the delegation itself is what the class's three one-line methods do."""
+        st = self.st
+        cls = st.cls_of(ref)
+        for pycls, attr in getattr(self.reg, 'sequence_view', []):
+            if st.branch(V.subclass(cls, z3.IntVal(V.cid_of(pycls)))):
+                inner = st.get_attr(ref, attr)
+                st.assumptions.add('A-seqview: %s iterates / tests membership through its list attribute %s '
+                                   '(legacy __getitem__ protocol)' % (pycls.__name__, attr))
+                if not st.branch(z3.And(Val.is_o(inner), st.cls_of(Val.ref(inner)) == V.LIST_CID)):
+                    raise Unsupported('sequence view attribute is not a list')
+                return st.items(Val.ref(inner))
+        return None
 
     def unknown_contains(self, cont, x):
         self.raise_(TypeError, 'argument is not iterable')
@@ -962,6 +982,9 @@ class Interp:
                 it_ = IterV(z3.Length(s), lambda k: s[k], 'dict')
                 it_.dict_ref = ref
                 return it_
+            view = self.sequence_view_of(ref)
+            if view is not None:
+                return IterV(z3.Length(view), lambda k, s_=view: s_[k], 'list', seq=view)
             raise Unsupported('iteration over an instance')
         if st.branch(Val.is_s(v)):
             s = Val.sv(v)
